@@ -5,7 +5,7 @@
 // meaning; the bodies below are the executable reading used when a
 // counterexample is replayed: quantifiers range over a finite window.
 
-package imapserver
+package imap
 
 import (
 	"reflect"
